@@ -60,6 +60,9 @@ ASSUMPTIONS = ['crash granularity is a Python line of lazy_dataset/core.py or di
                'at most one cache wrapper with clear=True is open on the directory at a time']
 
 GiB = 1024 ** 3
+# functions of diskcache/core.py that make up one store (file write, row insert)
+SET_FUNCS = ('set', '__setitem__', 'store', '_row_insert', '_row_update', '_transact',
+             '_cull', 'filename', '_write')
 TRACED = (os.path.realpath(ldc.__file__), os.path.realpath(dcc.__file__))
 
 
@@ -101,12 +104,12 @@ class BigFn(W.MapFn):
     def __call__(self, x):
         ctx, ids = W._enter(self.stage, x)
         ctx.event('ret', self.stage, ids)
-        return {'f': self.stage, 'x': x, 'blob': 'b%d' % ids[0] * 9000}
+        return {'f': self.stage, 'x': x, 'blob': 'b%d' % ids[0] * 20000}
 
 
 def value_of(i):
     if BIG[0]:
-        return {'f': 'u0', 'x': {'src': i}, 'blob': 'b%d' % i * 9000}
+        return {'f': 'u0', 'x': {'src': i}, 'blob': 'b%d' % i * 20000}
     return {'f': 'u0', 'x': {'src': i}}
 
 
@@ -164,14 +167,20 @@ def run_child(cache_dir, n, kind, accesses, kill_at):
         try:
             os.close(r)
             gc.disable()
-            warnings.simplefilter('ignore')
+            warnings.simplefilter('always')
+            warnings.showwarning = lambda *a, **k: None
             W.set_ctx(W.Ctx())
             steps = [0]
             inside_set = [0]
 
+            set_steps = []
+
             def local(frame, event, arg):
                 if event == 'line':
                     steps[0] += 1
+                    if kill_at is None and len(set_steps) < 600 and \
+                            frame.f_code.co_name in SET_FUNCS:
+                        set_steps.append(steps[0])
                     if kill_at is not None and steps[0] >= kill_at:
                         where = frame.f_code.co_name
                         os.write(w, ('killed %d %s\n' % (steps[0], where)).encode())
@@ -203,6 +212,7 @@ def run_child(cache_dir, n, kind, accesses, kill_at):
                 idx = [i for i, _ in got]
                 os.write(w, ('ack %d %s %d\n' % (j, json.dumps(idx), steps[0])).encode())
             sys.settrace(None)
+            os.write(w, ('setsteps %s\n' % json.dumps(set_steps)).encode())
             os.write(w, ('end %d\n' % steps[0]).encode())
         except BaseException as e:          # noqa
             try:
@@ -222,6 +232,7 @@ def run_child(cache_dir, n, kind, accesses, kill_at):
     os.close(r)
     _, st = os.waitpid(pid, 0)
     acks, steps, total, killed_in, err = [], [], None, None, None
+    set_steps = []
     for line in data.decode().splitlines():
         p = line.split(' ', 1)
         if p[0] == 'ack':
@@ -229,6 +240,8 @@ def run_child(cache_dir, n, kind, accesses, kill_at):
             idx, stp = rest.rsplit(' ', 1)
             acks.append(json.loads(idx))
             steps.append(int(stp))
+        elif p[0] == 'setsteps':
+            set_steps = json.loads(p[1])
         elif p[0] == 'end':
             total = int(p[1])
         elif p[0] == 'killed':
@@ -236,6 +249,7 @@ def run_child(cache_dir, n, kind, accesses, kill_at):
         elif p[0] == 'error':
             err = p[1]
     return {'acks': acks, 'steps': steps, 'total': total, 'killed_in': killed_in,
+            'set_steps': set_steps,
             'error': err, 'exit': os.waitstatus_to_exitcode(st)}
 
 
@@ -258,7 +272,11 @@ def gen(rng, tier, index):
     after_ack = sorted({s + 1 for s in dry['steps']} | {s for s in dry['steps']})
     if len(after_ack) > 14:
         after_ack = sorted(rng.sample(after_ack, 14))
-    kills = sorted(set(after_ack) | {rng.randrange(1, total + 1) for _ in range(6)})
+    inside_set = dry.get('set_steps') or []
+    if len(inside_set) > 8:
+        inside_set = rng.sample(inside_set, 8)
+    kills = sorted(set(after_ack) | {rng.randrange(1, total + 1) for _ in range(4)} |
+                   set(inside_set))
     for k in kills:
         cases.append({'mode': 'crash', 'n': n, 'kind': kind, 'pre': pre,
                       'accesses': accesses, 'kill': k, 'big': big,
@@ -420,7 +438,7 @@ def run_crash(case):
         killed = rep['exit'] == 9
         if killed:
             m.fired['writer_killed'] += 1
-            if rep['killed_in'] in ('set', '__setitem__', '_row_insert', '_row_update', '_cull', '_transact'):
+            if rep['killed_in'] in SET_FUNCS:
                 m.probes['killed_inside_cache_set'] = 1
             if case['kill'] in {s + 1 for s in rep['steps']} | set(rep['steps']):
                 m.probes['killed_right_after_store'] = 1
@@ -603,8 +621,8 @@ def run(case):
 
 
 def _run(case):
-    with warnings.catch_warnings():
-        warnings.simplefilter('ignore')
+    with warnings.catch_warnings(record=True):
+        warnings.simplefilter('always')    # recorded, not printed; never 'ignore': dependencies inspect warnings
         if case['mode'] == 'crash':
             m, extra = run_crash(case)
             nontrivial = bool(m.fired.get('writer_killed')) or bool(case['pre'])
